@@ -30,6 +30,10 @@ func codecPool(a *aspec.ASpec) {
 		aspec.NamedSchema{Name: "PoolC", Schema: objSchema(aspec.Prop{Name: "flag", Schema: aspec.Schema{K: "bool"}}, aspec.Prop{Name: "when", Schema: aspec.Schema{K: "datetime"}})},
 		aspec.NamedSchema{Name: "VarDog", Schema: objSchema(aspec.Prop{Name: "kind", Schema: str, Req: true}, aspec.Prop{Name: "bark", Schema: str, Req: true})},
 		aspec.NamedSchema{Name: "VarCat", Schema: objSchema(aspec.Prop{Name: "kind", Schema: str, Req: true}, aspec.Prop{Name: "meow", Schema: i64, Req: true})},
+		aspec.NamedSchema{Name: "VarMemo", Schema: objSchema(aspec.Prop{Name: "author", Schema: str}, aspec.Prop{Name: "subject", Schema: str, Req: true})},
+		aspec.NamedSchema{Name: "VarLetter", Schema: objSchema(aspec.Prop{Name: "author", Schema: str}, aspec.Prop{Name: "recipient", Schema: str, Req: true})},
+		aspec.NamedSchema{Name: "VarCircle", Schema: objSchema(aspec.Prop{Name: "kind", Schema: str, Req: true}, aspec.Prop{Name: "radius", Schema: aspec.Schema{K: "double"}, Req: true})},
+		aspec.NamedSchema{Name: "VarSquare", Schema: objSchema(aspec.Prop{Name: "kind", Schema: str, Req: true}, aspec.Prop{Name: "side", Schema: i64, Req: true})},
 		aspec.NamedSchema{Name: "VarBird", Schema: objSchema(aspec.Prop{Name: "kind", Schema: str, Req: true}, aspec.Prop{Name: "wings", Schema: aspec.Schema{K: "bool"}, Req: true})},
 	)
 }
